@@ -58,6 +58,16 @@ func JSONStringContent() *rapid.Generator[string] {
 		case 1:
 			return rapid.StringOfN(rapid.RuneFrom([]rune("ab\"\\/\n\t\r\b\f\u0001\u001f <>& é日😀{}[],:")), 0, 10, -1).Draw(t, "tricky")
 		case 2:
+			if rapid.Bool().Draw(t, "atoms") {
+				// literal text that looks like an escape sequence or markup: anything that
+				// post-processes JSON text instead of values trips over these
+				n := rapid.IntRange(1, 4).Draw(t, "natoms")
+				var sb strings.Builder
+				for k := 0; k < n; k++ {
+					sb.WriteString(rapid.SampledFrom([]string{"\\u003c", "\\u003e", "\\u0026", "\\u0022", "\\n", "\\\"", "\\\\", "\\", "&lt;", "<", ">", "&", "\u2028", "\u2029", "\"", "a", "/", "\\/", "%s", "${x}", "\x7f", "\ufeff"}).Draw(t, "atom"))
+				}
+				return sb.String()
+			}
 			return rapid.StringN(0, 12, -1).Draw(t, "any")
 		default:
 			return rapid.StringOfN(rapid.RuneFrom([]rune("abcxyz019 _-")), 0, 8, -1).Draw(t, "plain")
